@@ -286,9 +286,9 @@ func buildSweeps(thorough bool) []sweep {
 	// B2: bearer token values, one placement at a time
 	tokH := hdrVals
 	tokQ := qryVals
-	places := []string{"op-bearer", "default-bearer", "query", "urlencoded", "multipart"}
+	places := []string{"op-bearer", "default-bearer", "query", "urlencoded", "multipart", "multipart+file"}
 	sw = append(sw, sweep{name: "bearer-token-values",
-		doc:   "single placement {operation BearerToken, default BearerToken, access_token query, urlencoded form, multipart form} x every token value (header-safe strings for the header, every non-empty string elsewhere) x ctx x wire",
+		doc:   "single placement {operation BearerToken, default BearerToken, access_token query, urlencoded form, multipart form, multipart form with a file part} x every token value (header-safe strings for the header, every non-empty string elsewhere) x ctx x wire",
 		sizes: []int{len(places), len(tokQ), 2, 2},
 		gen: func(i []int) (Case, bool) {
 			t := tokQ[i[1]]
@@ -306,6 +306,10 @@ func buildSweeps(thorough bool) []sweep {
 				}
 			case "query":
 				cl.QueryToken = sp(t)
+			case "multipart+file":
+				cl.Media = "multipart"
+				cl.FormToken = sp(t)
+				cl.FormFile = true
 			default:
 				cl.Media = places[i[0]]
 				cl.FormToken = sp(t)
@@ -419,7 +423,7 @@ func buildSweeps(thorough bool) []sweep {
 	}
 	mwCreds := func(t string) []*Cred {
 		return []*Cred{nil,
-			{Kind: "basic", User: S(t), Pass: S(":" + t)},
+			{Kind: "basic", User: S(strings.ReplaceAll(t, ":", "_")), Pass: S(":" + t)}, // user names have no ':'
 			{Kind: "bearer", Token: S(t)},
 			{Kind: "apikey", Name: "X-Key", In: "header", Token: S(t)},
 			{Kind: "apikey", Name: "x-key", In: "header", Token: S(t)},
@@ -437,6 +441,19 @@ func buildSweeps(thorough bool) []sweep {
 			}
 			return Case{Mode: "mw", Wire: true, MW: &MW{Op: ops[i[0]], Cred: mwCreds(mwTokens[i[2]])[i[1]], Ctx: i[3] == 1, CB: cbs[i[4]]}}, true
 		}})
+	// small, discriminating sweeps first: a run cut by its time budget has then covered every clause
+	rank := map[string]int{"cross-kind": 0, "middleware": 1, "default-credential": 2, "bearer-placements": 3, "apikey-cross": 4, "basic-config": 5, "bearer-token-values": 6}
+	sort.SliceStable(sw, func(i, j int) bool {
+		ri, ok := rank[sw[i].name]
+		if !ok {
+			ri = 100
+		}
+		rj, ok := rank[sw[j].name]
+		if !ok {
+			rj = 100
+		}
+		return ri < rj
+	})
 	return sw
 }
 
@@ -465,6 +482,7 @@ func main() {
 	if r.Replay != "" {
 		var c Case
 		r.LoadReplay(&c)
+		verbose = true
 		v := check(c)
 		b, _ := json.Marshal(c)
 		fmt.Printf("replay %s\n", b)
@@ -475,7 +493,7 @@ func main() {
 				fmt.Printf("  expected: applies=%s user=%q password=%q token=%q (%s)\n", e.applies, e.user, e.pass, e.token, e.why)
 			}
 		}
-		fmt.Printf("  observed: outcome=%s\n  class=%q %s\n", v.outcome, v.class, v.what)
+		fmt.Printf("  observed: %s\n  outcome=%s\n  class=%q %s\n", v.seen, v.outcome, v.class, v.what)
 		if v.class != "" {
 			r.Fail(v.class, v.what, c)
 		}
